@@ -219,11 +219,14 @@ def _entails(facts, goal):
     return fm_infeasible(list(facts) + [neg], focus=neg.syms() or None)
 
 
-def find_model(cons, syms, box=range(0, 41), extra=(), max_try=400000):
+def find_model(cons, syms, box=range(0, 41), extra=(), max_try=400000, neq=()):
     """small non-negative integer model of the constraints, or None (bounded depth-first search
     over a candidate set made of 0..40 and the constants occurring in the constraints, +-1)"""
-    syms = sorted(set(syms) | set().union(*[c.syms() for c in cons]) if cons else set(syms))
-    if len(syms) > 7:
+    base_ = set(syms) | (set().union(*[c.syms() for c in cons]) if cons else set())
+    for q in neq:
+        base_ |= q.syms()
+    syms = sorted(base_)
+    if len(syms) > 10:
         return None
     vals = set(box) | set(extra)
     for c in cons:
@@ -248,6 +251,12 @@ def find_model(cons, syms, box=range(0, 41), extra=(), max_try=400000):
 
     def rec(i):
         if i == len(order):
+            for q in neq:
+                t = q.k
+                for s_, co in q.c.items():
+                    t += co * m[s_]
+                if t == 0:
+                    return False
             return True
         for v in vals:
             tried[0] += 1
